@@ -7,7 +7,7 @@ from ..pipeline_prop import PipelineProp
 class C11(PipelineProp):
     pid = "C11"
     design_ref = "6/C11"
-    required_theorems = ['C11_junction_is_unordered_pair', 'C11_junction_reverse_pair', 'C11_junction_set_reverse', 'C11_junction_set_reverse_same_size', 'C11_junction_set_ok', 'C11_strand0_is_an_error', 'C11_diff_is_set_difference', 'C11_union_is_set_union', 'C11_inter_is_set_intersection', 'C11_junction_sets_duplicate_free', 'C11_union_duplicate_free', 'C11_legacy_refuted', 'C11_cuts_spec', 'C11_haplotig_count']
+    required_theorems = ['C11_junction_is_unordered_pair', 'C11_junction_reverse_pair', 'C11_junction_set_reverse', 'C11_junction_set_reverse_same_size', 'C11_junction_set_ok', 'C11_strand0_is_an_error', 'C11_diff_is_set_difference', 'C11_union_is_set_union', 'C11_inter_is_set_intersection', 'C11_junction_sets_duplicate_free', 'C11_union_duplicate_free', 'C11_legacy_refuted', 'C11_cuts_spec', 'C11_haplotig_count', 'C11_breaks_joins', 'C11_input_adjacency_reversal_invariant']
 
     def rule(self):
         return (
